@@ -4,4 +4,6 @@ INVARIANT Sound
 INVARIANT Complete
 INVARIANT SelfQuery
 INVARIANT ClosedExact
+INVARIANT MeasureNat
+PROPERTY Terminates
 CHECK_DEADLOCK FALSE
